@@ -219,7 +219,9 @@ def WM.reshare (w : WM) (e : Handle) (pi idx : Nat) (sh : Shared) : WM × Option
 theorem reshare_post {w : WM} {e : Handle} {pi idx : Nat} {row : Row} (h : LocAt w e pi idx row) (sh : Shared) :
     (∃ ti i' row', LocAt (w.reshare info e pi idx sh).1 e ti i' row' ∧
       ((w.reshare info e pi idx sh).1.arch ti).mask = closedMask w.deps (w.arch pi).mask ∧
-      ((w.reshare info e pi idx sh).1.arch ti).shared.data = sh.data) ∧
+      ((w.reshare info e pi idx sh).1.arch ti).shared.data = sh.data ∧
+      (row.vals.length = (w.arch pi).mask.length →
+        row'.vals.length = ((w.reshare info e pi idx sh).1.arch ti).mask.length)) ∧
     (∀ c, (w.reshare info e pi idx sh).1.hasComp e c = (closedMask w.deps (w.arch pi).mask).contains c) ∧
     (∀ c ∈ (w.arch pi).mask, (w.reshare info e pi idx sh).1.getComp e c = w.getComp e c) := by
   have post := getArch_post w (w.arch pi).mask sh
@@ -238,7 +240,7 @@ theorem reshare_post {w : WM} {e : Handle} {pi idx : Nat} {row : Row} (h : LocAt
       have := post.mask; rw [hne, ha] at this; exact this
     have hdat : ((w.getArch (w.arch pi).mask sh).1.arch pi).shared.data = sh.data := by
       have := post.data; rw [hne] at this; exact this
-    refine ⟨⟨pi, idx, row, h1, by rw [ha]; exact hm, hdat⟩, ?_, ?_⟩
+    refine ⟨⟨pi, idx, row, h1, by rw [ha]; exact hm, hdat, fun hlen => by rw [ha]; exact hlen⟩, ?_, ?_⟩
     · intro c
       rw [hasComp_of_locAt h1, ha, ← hm]
     · intro c _
@@ -249,7 +251,8 @@ theorem reshare_post {w : WM} {e : Handle} {pi idx : Nat} {row : Row} (h : LocAt
       unfold WM.reshare; rw [hmv]
     rw [hr]
     obtain ⟨m1, m2, m3, m4, m5⟩ := moveState_post info h1 post.lt hne []
-    refine ⟨⟨_, _, _, m1, by rw [m2]; exact post.mask, by rw [m3]; exact post.data⟩, ?_, ?_⟩
+    refine ⟨⟨_, _, _, m1, by rw [m2]; exact post.mask, by rw [m3]; exact post.data,
+      fun _ => by rw [m2]; simp [moveVals]⟩, ?_, ?_⟩
     · intro c; rw [m4 c, post.mask]
     · intro c hc
       have hc1 : c ∈ ((w.getArch (w.arch pi).mask sh).1.arch pi).mask := by rw [ha]; exact hc
@@ -288,7 +291,8 @@ theorem sremove_absent {w : WM} {e : Handle} {pi idx : Nat} (hloc : w.locOf e = 
 /-- what a shared edit of entity `e` (row in archetype `ai` of `w`) guarantees about the state `w'` after -/
 structure EditPost (w w' : WM) (e : Handle) (ai : Nat) : Prop where
   /-- still at a consistent location, in an archetype whose mask is the closure of the old mask -/
-  loc : ∃ ai' i' row', LocAt w' e ai' i' row' ∧ (w'.arch ai').mask = closedMask w.deps (w.arch ai).mask
+  loc : ∃ ai' i' row', LocAt w' e ai' i' row' ∧ (w'.arch ai').mask = closedMask w.deps (w.arch ai).mask ∧
+    row'.vals.length = (w'.arch ai').mask.length
   /-- the entity has exactly the closure of its old component set -/
   has : ∀ c, w'.hasComp e c = (closedMask w.deps (w.arch ai).mask).contains c
   /-- every component it had is still there with the same value -/
@@ -317,10 +321,11 @@ theorem reshare_deps (w : WM) (e : Handle) (pi idx : Nat) (sh : Shared) :
     · rfl
     · split <;> simp [this, WM.setArch]
 
-theorem reshare_editPost {w : WM} {e : Handle} {pi idx : Nat} {row : Row} (h : LocAt w e pi idx row) (sh : Shared) :
+theorem reshare_editPost {w : WM} {e : Handle} {pi idx : Nat} {row : Row} (h : LocAt w e pi idx row)
+    (hlen : row.vals.length = (w.arch pi).mask.length) (sh : Shared) :
     EditPost w (w.reshare info e pi idx sh).1 e pi := by
-  obtain ⟨⟨ti, i', row', hl, hm, _⟩, hhas, hvals⟩ := reshare_post info h sh
-  refine ⟨⟨ti, i', row', hl, hm⟩, hhas, ?_, reshare_deps info w e pi idx sh⟩
+  obtain ⟨⟨ti, i', row', hl, hm, _, hln⟩, hhas, hvals⟩ := reshare_post info h sh
+  refine ⟨⟨ti, i', row', hl, hm, hln hlen⟩, hhas, ?_, reshare_deps info w e pi idx sh⟩
   intro c hc
   have hc' : c ∈ (w.arch pi).mask := by
     rw [hasComp_of_locAt h] at hc; simpa using hc
@@ -328,12 +333,13 @@ theorem reshare_editPost {w : WM} {e : Handle} {pi idx : Nat} {row : Row} (h : L
   rw [hhas c]
   simpa using (subset_closedMask (deps := w.deps) hc')
 
-theorem sassign_post {w : WM} {e : Handle} {ai i : Nat} {row : Row} (h : LocAt w e ai i row) (sid v : Nat) :
+theorem sassign_post {w : WM} {e : Handle} {ai i : Nat} {row : Row} (h : LocAt w e ai i row)
+    (hlen : row.vals.length = (w.arch ai).mask.length) (sid v : Nat) :
     EditPost w (w.sassign info e sid v).1 e ai := by
   have h0 := h.poolGet sid v
   have ha : (w.poolGet sid v).1.arch ai = w.arch ai := by simp [WM.arch]
   have hd : (w.poolGet sid v).1.deps = w.deps := by simp
-  have post := reshare_editPost info h0 ((w.arch ai).shared.add sid (w.poolGet sid v).2)
+  have post := reshare_editPost info h0 (by rw [ha]; exact hlen) ((w.arch ai).shared.add sid (w.poolGet sid v).2)
   rw [sassign_eq info h.loc sid v]
   obtain ⟨⟨ti, i', row', hl, hm⟩, hhas, hvals, hdeps⟩ := post
   rw [hd, ha] at hm hhas
@@ -347,7 +353,8 @@ theorem sassign_post {w : WM} {e : Handle} {ai i : Nat} {row : Row} (h : LocAt w
   rw [htr] at this
   exact this
 
-theorem sremove_post {w : WM} {e : Handle} {ai i : Nat} {row : Row} (h : LocAt w e ai i row) (sid : Nat) :
+theorem sremove_post {w : WM} {e : Handle} {ai i : Nat} {row : Row} (h : LocAt w e ai i row)
+    (hlen : row.vals.length = (w.arch ai).mask.length) (sid : Nat) :
     ((w.arch ai).shared.has sid = false ∧ w.sremove info e sid = (w, false, [])) ∨
     ((w.arch ai).shared.has sid = true ∧ EditPost w (w.sremove info e sid).1 e ai) := by
   cases hh : (w.arch ai).shared.has sid with
@@ -355,6 +362,10 @@ theorem sremove_post {w : WM} {e : Handle} {ai i : Nat} {row : Row} (h : LocAt w
   | true =>
     refine Or.inr ⟨rfl, ?_⟩
     rw [sremove_eq info h.valid h.loc sid hh]
-    exact reshare_editPost info h _
+    exact reshare_editPost info h hlen _
+
+theorem EditPost.locOK {w w' : WM} {e : Handle} {ai : Nat} (h : EditPost w w' e ai) : LocOK w' e := by
+  obtain ⟨a, b, r, hl, _, hlen⟩ := h.loc
+  exact ⟨a, b, r, hl, hlen⟩
 
 end Mustache.Model
